@@ -256,6 +256,7 @@ def make_body(sched: Sched, tid: int, ep: Dict[str, Any]):
         def sink(kind, key, msg):
             sched.log(t=sched.current if sched.current is not None else tid, ev=kind, key=list(key), msg=msg)
 
+        api = ep.get("api", "plain")
         for n, (op, arg) in enumerate(ep["script"]):
             sched.log(t=tid, ev="call", op=op, arg=arg, n=n)
             res: Any = "ok"
@@ -293,13 +294,22 @@ def make_body(sched: Sched, tid: int, ep: Dict[str, Any]):
                     remote, msg = sock.recv(block=True)
                     res = f"{list(ep['remotes']).index(remote) + 1}:{msg}"
                 elif op == "send":
-                    sock.send(arg)
-                elif op == "recv":
-                    res = sock.recv(block=True)
-                elif op == "recvnb":
+                    # the three public entry points of a socket are the same channel operation
+                    if api == "silent":
+                        sock.send_silent(arg)
+                    elif api == "structured":
+                        from netqasm.sdk.classical_communication.message import StructuredMessage
+                        sock.send_structured(StructuredMessage(header="h", payload=arg))
+                    else:
+                        sock.send(arg)
+                elif op in ("recv", "recvnb"):
+                    fn = {"silent": "recv_silent", "structured": "recv_structured"}.get(api, "recv")
                     try:
-                        res = sock.recv(block=False)
+                        res = getattr(sock, fn)(block=(op == "recv"))
+                        res = getattr(res, "payload", res)
                     except RuntimeError:
+                        if op == "recv":
+                            raise
                         res = "<empty>"
                 elif op == "disconnect":
                     sched.hub.disconnect(sock)
